@@ -318,8 +318,31 @@ def validate_build_traces(rep, prop, tier, seed):
     if not res:
         return
     cases = [{"id": c["id"], "events": c["events"]} for c in res]
-    v, r = tlc.judge("Trace_Build", cases, workers=1, jvm=("-Dtlc2.tool.impl.Tool.cdot=true",))
+    # the binding itself is exercised on every run: corrupted copies of recorded traces must be rejected
+    # (a wrong answer; the registration of one method missing; the build finishing without its swap)
+    controls = {}
+    for c in res:
+        ev = c["events"]
+        ends = [j for j, e in enumerate(ev) if e["ev"] == "end" and e["res"] > 0]
+        regs = [j for j, e in enumerate(ev) if e["ev"] == "registered"]
+        swaps = [j for j, e in enumerate(ev) if e["ev"] == "swapped"]
+        if "wrong_answer" not in controls and ends:
+            bad_ev = [dict(e) for e in ev]
+            bad_ev[ends[0]]["res"] = bad_ev[ends[0]]["res"] % 3 + 1 if bad_ev[ends[0]]["res"] != bad_ev[ends[0]]["res"] % 3 + 1 else 0
+            controls["wrong_answer"] = {"id": "CONTROL-wrong_answer", "events": bad_ev}
+        if "missing_registration" not in controls and len(regs) >= 2 and swaps:
+            controls["missing_registration"] = {"id": "CONTROL-missing_registration", "events": [e for j, e in enumerate(ev) if j != regs[0]]}
+        if "missing_swap" not in controls and swaps and not any(e["ev"] == "failed" for e in ev):
+            controls["missing_swap"] = {"id": "CONTROL-missing_swap", "events": [e for j, e in enumerate(ev) if j != swaps[0]]}
+        if len(controls) == 3:
+            break
+    v, r = tlc.judge("Trace_Build", cases + list(controls.values()), workers=1, jvm=("-Dtlc2.tool.impl.Tool.cdot=true",))
     rep.add_tlc(r, "trace validation Trace_Build (recorded build executions are behaviours of Build.tla)")
+    for name, c in controls.items():
+        x = v.pop(c["id"], None)
+        if x is None or not x["clause"]:
+            rep.machinery_failure(f"Trace_Build accepts a corrupted trace ({name}): the trace specification no longer binds")
+    rep.extra["build_trace_controls_rejected"] = sorted(controls)
     full = {c["id"]: c for c in res}
     bad = [(cid, x) for cid, x in v.items() if x["clause"]]
     rep.extra["build_traces_validated"] = len(v)
